@@ -56,7 +56,7 @@ const (
 	accHard = 5 // another module account: blocked as a recipient of coins, has no key
 	accZero = 6 // 0x0000000000000000000000000000000000000000 / the sdk address of 20 zero bytes
 	nAcc    = 7
-	nPair   = 4
+	nPair   = 5
 	// ids >= noCodeBase name addresses without code (never reached by the deployment counter)
 	noCodeBase = 100
 )
@@ -68,14 +68,15 @@ const (
 // never on the allow list, so every conversion of it must be refused.
 var denoms = []string{"bnb", "btcb", "erc20/usdc", "hard", "usdx", "xrpb", "xyz",
 	"BNB", "bnbx", "BTCB", "btc", "ERC20/USDC", "erc20/usd", "HARD", "hardx", "USDX", "usd", "XRPB", "xrpbx",
-	"erc20/rfnd"}
+	"erc20/rfnd", "erc20/nrvt"}
 
 const (
-	nDenom    = 20
+	nDenom    = 21
 	nRealDen  = 7
 	firstLook = 7
 	lastLook  = 18
 	denRfnd   = 19
+	denNR     = 20
 )
 
 func isLook(d int) bool { return d >= firstLook && d <= lastLook }
@@ -85,10 +86,23 @@ var lookalikes = map[int][]int{0: {7, 8}, 1: {9, 10}, 2: {11, 12}, 3: {13, 14}, 
 
 // the table of EVM-native conversion pairs governance chooses from: pair contract id -> denom index
 // contract 0 <-> bnb (bep3), 1 <-> erc20/usdc, 2 <-> btcb (bep3), 3 <-> erc20/rfnd (adversarial bytecode)
-var pairDenom = []int{0, 2, 1, denRfnd}
+// 4 <-> erc20/nrvt (old-style bytecode: transfer() returns false instead of reverting)
+var pairDenom = []int{0, 2, 1, denRfnd, denNR}
 
 // evilCtr[c]: table contract c runs the adversarial bytecode
-var evilCtr = []bool{false, false, false, true}
+var evilCtr = []bool{false, false, false, true, false}
+
+// nrCtr[c]: table contract c runs the old-style bytecode
+var nrCtr = []bool{false, false, false, false, true}
+
+func isNR(c int) bool { return c >= 0 && c < nPair && nrCtr[c] }
+
+// noRevertInitCode is the creation code of the old-style token (an input of the check, assembled by
+// hand; tools/asm_old_style_token.py is the listing and re-assembles it): selectors balanceOf, totalSupply, mint (open to
+// anybody; to the zero address and past 2^256 in total reverts), transfer (to the zero address
+// reverts; a balance that is too small: RETURNS FALSE and moves nothing; otherwise moves the tokens
+// and returns true); anything else reverts.  balances[a] lives in slot uint(a), the total in slot 2^160.
+const noRevertInitCode = "6100b98061000d6000396000f360003560e01c806370a0823114610038578063a9059cbb1461008057806340c10f191461005457806318160ddd14610045575b60006000fd5b6004355460005260206000f35b600160a01b5460005260206000f35b6004351561003257602435600160a01b54810181811061003257600160a01b5560043580548201905550005b600435156100325760243533548181106100ae57819003335560043580548201905550600160005260206000f35b600060005260206000f3"
 
 func isEvil(c int) bool { return c >= 0 && c < nPair && evilCtr[c] }
 
@@ -225,9 +239,17 @@ func setup() *world {
 	if err != nil {
 		panic(err)
 	}
+	nrCode, err := hex.DecodeString(noRevertInitCode)
+	if err != nil {
+		panic(err)
+	}
 	for i := 0; i < nPair; i++ {
 		var addr evmutiltypes.InternalEVMAddress
-		if evilCtr[i] {
+		if evilCtr[i] || nrCtr[i] {
+			initCode := initCode
+			if nrCtr[i] {
+				initCode = nrCode
+			}
 			nonce, err := ak.GetSequence(ctx, evmutiltypes.ModuleEVMAddress.Bytes())
 			if err != nil {
 				panic(err)
@@ -248,9 +270,9 @@ func setup() *world {
 		w.ctrID[addr.Address] = len(w.ctr)
 		w.ctr = append(w.ctr, addr)
 	}
-	// genesis parameters: pairs 0, 1 and the adversarial pair enabled; hard and xrpb allowed
+	// genesis parameters: pairs 0, 1, the adversarial pair and the old-style pair enabled; hard and xrpb allowed
 	p := evmutiltypes.NewParams(
-		evmutiltypes.ConversionPairs{w.pairOf(0), w.pairOf(1), w.pairOf(3)},
+		evmutiltypes.ConversionPairs{w.pairOf(0), w.pairOf(1), w.pairOf(3), w.pairOf(4)},
 		evmutiltypes.AllowedCosmosCoinERC20Tokens{tokenMeta(3), tokenMeta(5)})
 	if err := p.Validate(); err != nil {
 		panic(err)
@@ -290,7 +312,7 @@ func (w *world) slot(ctx sdk.Context, c int, key common.Hash) *big.Int {
 }
 
 func (w *world) rawBalance(ctx sdk.Context, c int, a common.Address) *big.Int {
-	if isEvil(c) {
+	if isEvil(c) || isNR(c) {
 		return w.slot(ctx, c, common.BytesToHash(a.Bytes()))
 	}
 	return w.slot(ctx, c, crypto.Keccak256Hash(append(pad32(a), make([]byte, 32)...)))
@@ -300,10 +322,16 @@ func (w *world) rawTotal(ctx sdk.Context, c int) *big.Int {
 	if isEvil(c) {
 		return big.NewInt(0) // the adversarial token keeps no total supply
 	}
+	if isNR(c) {
+		return w.slot(ctx, c, common.BigToHash(new(big.Int).Lsh(big.NewInt(1), 160)))
+	}
 	return w.slot(ctx, c, common.BigToHash(big.NewInt(2)))
 }
 
 func (w *world) rawAllowance(ctx sdk.Context, c int, owner, spender common.Address) *big.Int {
+	if isNR(c) {
+		return big.NewInt(0) // the old-style token has no allowances
+	}
 	if isEvil(c) {
 		return w.slot(ctx, c, crypto.Keccak256Hash(append(pad32(owner), pad32(spender)...)))
 	}
